@@ -78,7 +78,7 @@ class Cli:
 
 class Shadow:
     def __init__(s, svcs, timeout, with_xq):
-        s.svcs = list(svcs); s.timeout = timeout; s.with_xq = with_xq; s.live = {}; s.serial = 0
+        s.svcs = [(n_, t_.lower()) for n_, t_ in svcs]; s.timeout = timeout; s.with_xq = with_xq; s.live = {}; s.serial = 0     # type names are case-insensitive
     def qpass(s, c, flag):
         for name, typ in s.svcs:
             if typ not in PRE: continue
@@ -106,6 +106,7 @@ class Shadow:
             s.serial += 1
             c = Cli(cid, s.serial); c.timer = s.timeout > 0; s.live[cid] = c; return
         if cmd in 'Xx':
+            if cid != -1 and cid not in s.live: return        # a line whose id is neither -1 nor live is dropped before dispatch
             if len(args) < 3 or not s.with_xq: return
             try: a, b = args[1].split('_'); tid = int(a, 16); ser = int(b, 16)
             except ValueError: return
